@@ -6,6 +6,11 @@ HERE = os.path.dirname(os.path.abspath(__file__))
 
 # id -> (level, technique, text, note)   (only implemented checks are listed; the rest go to not_applicable)
 CHECKS = {
+    "C01": ("fault_enumeration",
+            "exhaustive enumeration of the single-fault edit neighbourhood (every byte substitution over an alphabet at every offset, every truncation / prefix drop, every number token replaced by boundary tokens; thorough: deletions, insertions, entry deletion/duplication, all numbers of the file, fault pairs in the trailer region) of a seed set, each walked completely in worker processes under all configurations",
+            "'All byte strings' cannot be enumerated; what is enumerated completely is the stated neighbourhood of generated seeds (one per structural feature) and of the corpus crash files. Every faulted input is opened strict/tolerant x cached/uncached and every read entry point is exercised by the walker inside a worker process so that panics, stack overflows, aborts, allocation failures and hangs are observed and attributed to one input.",
+            "Trusted: walker reaches the entry points of the property; fixed thresholds (10 s, 3 GiB). No claim beyond the neighbourhoods.",
+            "§5 C01"),
     "C14": ("fault_enumeration",
             "exhaustive enumeration of single structural faults (every reference occurrence re-pointed at every object / undefined / beyond-size number; every integer occurrence set to 8 boundary values), all pairs of re-wirings inside 9 structural fragments and 60 special structures, each walked completely in a worker process under 4 configurations",
             "The fault space over the base documents is enumerated completely (not sampled): cycles through every followed field, self-containing object streams, /Prev loops, nesting to 200000, boundary numbers in every numeric field incl. encryption, predictor, xref and function parameters. Workers make stack overflow, abort, allocation failure (3 GiB limit) and hangs (10 s) observable and attributable to one case.",
